@@ -331,6 +331,24 @@ theorem history_writes_vocab (cfg : Cfg) : ∀ (calls : List ClientCall) (s : Cl
 theorem connOK_initial (w : World) (h : w.conn = none) : ConnOK w := by
   intro c hc; rw [h] at hc; cases hc
 
+/-- non-vacuity, kernel-evaluated on the model: against a healthy terminal (default replies; it issues receipt 1 for a
+reservation) the history begin a · begin b · commit a · read_card never closes the last open token (`NeverIdle` holds: the commit
+leaves b open), the commit is the third call, and on the one connection the client opened NO packet starts with 06 50 after the
+start-up — while committing the LAST token (begin a · commit a) does request end-of-day. -/
+example :
+    let cfg : Cfg := { maxTx := 2, amount := 2500, currency := 978, password := 123456, readCardTimeout := 15,
+                       serial := [65, 66], terminalId := [49] }
+    let w : World := { serial := [0x41, 0x42, 0, 0, 0, 0, 0, 0], tid := [0x31, 0, 0, 0, 0, 0, 0, 0] }
+    let h : List TxCall := [.begin [97], .begin [98], .commit [97] 100, .readCard]
+    let s3 := [TxCall.begin [97], .begin [98]].foldl (runTxCall cfg) ({}, w)
+    let sEnd := h.foldl (runTxCall cfg) ({}, w)
+    let sIdle := [TxCall.begin [97], .commit [97] 100].foldl (runTxCall cfg) ({}, w)
+    s3.1.txs.map (·.1) = [[98], [97]] ∧ (s3.1.txs.filter (·.1 ≠ [97]) ≠ []) ∧
+    sEnd.1.txs.map (·.1) = [[98]] ∧
+    ((sEnd.2.sentOn 0).filter (fun p => p.take 2 = [0x06, 0x50])).length = 0 ∧
+    ((sIdle.2.sentOn 0).filter (fun p => p.take 2 = [0x06, 0x50])).length = 1 := by
+  decide +kernel
+
 /-- non-vacuity: two open tokens, committing one of them satisfies the hypothesis of `commit_writes_while_open`. -/
 example : ([([97], 11), ([98], 12)] : List (List Nat × Nat)).find? (·.1 = [97]) = some ([97], 11) ∧
     ([([97], 11), ([98], 12)] : List (List Nat × Nat)).filter (·.1 ≠ [97]) ≠ [] := by decide
